@@ -244,6 +244,12 @@ def comp_oracle(ctx):
         d = Prefixed(lf, Compressed(GreedyBytes, codec, level=level))
         ctx.record(case, len(data) > 0, ["comp/" + codec, "comp/level=%s" % level])
         b = call(d.build, data)
+        ref = call(lambda: lib.compress(data) if level is None or codec == "lzma" else lib.compress(data, level))
+        if not ref.ok:
+            # the codec itself refuses the level (bzip2 level 0): the wrapper must not quietly pick another one
+            if b.ok:
+                return Failure("C15/compressed/%s/level-not-applied" % codec, "level=%r is refused by the codec (%r) but build produced %s" % (level, ref, short(b.value, 60)))
+            return None
         if not b.ok:
             return Failure("C15/compressed/%s/build" % codec, "build(%s) raised %r" % (short(data, 60), b))
         s = io.BytesIO(b.value)
@@ -251,13 +257,18 @@ def comp_oracle(ctx):
         body = s.read()
         if ln != len(body):
             return Failure("C15/compressed/%s/prefix" % codec, "prefix %d but %d bytes follow" % (ln, len(body)))
+        # what build emits is the codec's output at the requested level (gzip stamps the time into bytes 4..8 of its header)
+        mask = (lambda x: x[:4] + x[8:]) if codec == "gzip" else (lambda x: x)
+        if mask(body) != mask(ref.value):
+            return Failure("C15/compressed/%s/level-not-applied" % codec, "level=%r: build emitted %d bytes %s, the codec at that level gives %d bytes %s" % (
+                level, len(body), short(body, 40), len(ref.value), short(ref.value, 40)))
         dec = call(lib.decompress, body)
         if not dec.ok or dec.value != data:
             return Failure("C15/compressed/%s/build" % codec, "stdlib decompress(build(x)) -> %r, expected %s" % (dec, short(data, 60)))
         p = call(d.parse, b.value + b"trailing")
         if not p.ok or p.value != data:
             return Failure("C15/compressed/%s/roundtrip" % codec, "parse(build(x)+trailing) -> %r" % (p,))
-        comp = lib.compress(data) if level is None or codec == "lzma" else lib.compress(data, level)
+        comp = ref.value
         p2 = call(d.parse, lf.build(len(comp)) + comp)
         if not p2.ok or p2.value != data:
             return Failure("C15/compressed/%s/parse" % codec, "parse(prefix + stdlib.compress(x)) -> %r" % (p2,))
@@ -274,7 +285,7 @@ def comp_oracle(ctx):
 def campaign_compressed(ctx):
     datas = st.one_of(st.binary(max_size=64), st.binary(max_size=8).flatmap(lambda b: st.integers(0, 600).map(lambda n: b * n)),
                       st.binary(min_size=200, max_size=3000))
-    strat = st.tuples(st.sampled_from(sorted(LIBS)), st.sampled_from([None, 1, 6, 9]), datas,
+    strat = st.tuples(st.sampled_from(sorted(LIBS)), st.sampled_from([None, 0, 0, 1, 2, 6, 9]), datas,
                       st.sampled_from(["varint", "int32"])).map(list)
     ctx.search(strat, comp_oracle(ctx), ctx.budget(1500, 8000))
 campaign_compressed.shards = (4, 4)
